@@ -9,12 +9,14 @@ CHECKS = {
     "C02": ("harness.checks.namer", "model_checking"),
     "C03": ("harness.checks.streamfam", "model_checking"),
     "C04": ("harness.checks.streamfam", "model_checking"),
+    "C05": ("harness.checks.cdcfam", "model_checking"),
     "C06": ("harness.checks.wbicfam", "model_checking"),
     "C07": ("harness.checks.wbmemfam", "model_checking"),
     "C08": ("harness.checks.axilicfam", "model_checking"),
     "C10": ("harness.checks.axiburstfam", "model_checking"),
     "C11": ("harness.checks.timeoutfam", "model_checking"),
     "C13": ("harness.checks.socalloc", "model_checking"),
+    "C14": ("harness.checks.exporttruth", "model_checking"),
     "C15": ("harness.checks.eventfam", "model_checking"),
     "C17": ("harness.checks.code8b10b", "model_checking"),
     "C18": ("harness.checks.secded", "model_checking"),
